@@ -340,10 +340,6 @@ class SymbolicExpression(Generic[T], ABC):
 
     def __enter__(self, in_rule_mode: bool = False):
         node = self
-        if in_rule_mode and isinstance(self, ResultQuantifier):
-            # conclusions are attached to this query, so it is a rule, also when it was not written inside a rule block:
-            # its selected variables get their values from the conclusions, not from the instances that exist already.
-            self._child_.rule_mode = True
         if in_rule_mode or in_symbolic_mode(EQLMode.Rule):
             if (node is self._root_) or (node._parent_ is self._root_):
                 node = node._conditions_root_
@@ -2006,6 +2002,11 @@ def symbolic_mode(query: Optional[SymbolicExpression] = None, mode: EQLMode = EQ
     try:
         if query is not None:
             query.__enter__(in_rule_mode=True)
+            if mode == EQLMode.Rule and isinstance(query, ResultQuantifier):
+                # conclusions are attached to this query, so it is a rule, also when it was not written inside a rule
+                # block: its selected variables get their values from the conclusions, not from the instances that exist
+                # already. A query-mode block opened on a query (to bind predicates implicitly) leaves it a query.
+                query._child_.rule_mode = True
         _set_symbolic_mode(mode)
         yield SymbolicExpression._current_parent_()
     finally:
